@@ -46,6 +46,7 @@ package client
 //@   atomic [stored-stays] m.private.msg == old(m.private.msg)
 //@   atomic [released-means-none] old(m.private.msg) == nil ==> !ok && msg == nil && err == nil && notCalled(AcquireMessage)
 //@   atomic [hands-out-a-copy] ok ==> err == nil && msg != nil && msg != old(m.private.msg) && callCount(AcquireMessage) == 1 && msg == callRes(AcquireMessage, 0, 0) && callCount(Clone) == 1 && callArg(Clone, 0, 0) == old(m.private.msg) && callArg(Clone, 0, 1) == msg && notCalled(ReleaseMessage)
+//@   ensures [copied-inside-the-critical-section] called(Clone) ==> callSeq(mutexLock, 0) < callSeq(Clone, 0) && callSeq(Clone, 0) < callSeq(mutexUnlock, 0) && callCount(mutexUnlock) == 1
 //@   atomic [failed-copy-returned-to-pool] called(Clone) && callRes(Clone, 0, 0) != nil ==> !ok && msg == nil && err != nil && callCount(ReleaseMessage) == 1 && callArg(ReleaseMessage, 0, 1) == callRes(AcquireMessage, 0, 0)
 //@   ensures (ok ==> msg != nil && err == nil) && (!ok ==> msg == nil)
 //
@@ -65,6 +66,7 @@ package client
 //@   modifies value.private.msg, value.retransmit
 //@   ensures [at-most-one] callCount(WriteMessage) <= 1
 //@   ensures [send-guard] called(WriteMessage) ==> !((value.deadline != 0 && now > value.deadline) || old(atomicLoad(value.retransmit)) >= maxRetransmit) && now > value.start + acknowledgeTimeout * (old(atomicLoad(value.retransmit)) + 1) && atomicLoad(value.retransmit) == old(atomicLoad(value.retransmit)) + 1
+//@   ensures [a-copy-that-was-sent-keeps-the-entry] called(WriteMessage) ==> notCalled(Delete) && callCount(ReleaseMessage) == 1 && callArg(ReleaseMessage, 0, 1) == callArg(WriteMessage, 0, 1)
 //@   ensures [expired-removed] ((value.deadline != 0 && now > value.deadline) || old(atomicLoad(value.retransmit)) >= maxRetransmit) ==> notCalled(WriteMessage) && called(Delete) && called(ReleaseMessage)
 //@   ensures [not-due] !((value.deadline != 0 && now > value.deadline) || old(atomicLoad(value.retransmit)) >= maxRetransmit) && !(now > value.start + acknowledgeTimeout * (old(atomicLoad(value.retransmit)) + 1)) ==> notCalled(WriteMessage) && notCalled(Delete) && atomicLoad(value.retransmit) == old(atomicLoad(value.retransmit))
 
@@ -78,6 +80,19 @@ package client
 // Assumed contracts (not verified here): the cache behind the MessageCache interface (pkg/cache is
 // proved under C14; marshalling under C01), the application handler (arbitrary effect on both
 // messages), the per-key mutex (udp/client/mutexmap.go), the inactivity monitor.
+//
+// The default response cache stores its OWN copy of the marshalled reply: the slice MarshalWithEncoder
+// returns is the message's internal marshal buffer, which is written over as soon as the pooled message is
+// reused for another reply (seed C05c-1 stored that slice itself, so a duplicate was answered with another
+// exchange's bytes).
+//
+//@ func (*messageCache) Store(key string, msg *pool.Message) (err error)
+//@   requires m != nil && m.c != nil && m.c.Map != nil && msg != nil
+//@   modifies anything
+//@   opaque-calls pure
+//@   ensures [marshal-failure-stores-nothing] err != nil ==> notCalled(LoadOrStore) && called(MarshalWithEncoder) && callRes(MarshalWithEncoder, 0, 1) != nil
+//@   ensures [stores-once-under-the-key] err == nil ==> callCount(LoadOrStore) == 1 && callArg(LoadOrStore, 0, 1) == key && callCount(MarshalWithEncoder) == 1 && callArg(MarshalWithEncoder, 0, 0) == msg
+//@   ensures [stores-its-own-copy] err == nil ==> len(callArg(LoadOrStore, 0, 2).data) == len(callRes(MarshalWithEncoder, 0, 0)) && (len(callArg(LoadOrStore, 0, 2).data) > 0 ==> fresh(callArg(LoadOrStore, 0, 2).data)) && bytesEq(callArg(LoadOrStore, 0, 2).data, callRes(MarshalWithEncoder, 0, 0))
 //
 //@ func (MessageCache) Load(key string, msg *pool.Message) (ok bool, err error)
 //@   trusted
